@@ -163,7 +163,7 @@ Proof.
         { intros x. cbn [la_of tl]. change (statl (flatl r2) :: la_of r2) with (la_of (x :: r2)). split.
           - intros Wx; inversion Wx; subst; auto.
           - intros [Wx Sx]. constructor; auto. discriminate. }
-        destruct (negb ok2 && (1 <? length (h2 :: r2))%nat) eqn:Retry.
+        destruct (negb ok2 && (1 <? length (h :: h2 :: r2))%nat) eqn:Retry.
         -- (* retry on the shifted composite *)
            apply andb_prop in Retry. destruct Retry as [R1 R2]. destruct ok2; [discriminate|].
            apply an_fail in AN2. destruct AN2 as (-> & -> & DCh2).
@@ -189,12 +189,7 @@ Proof.
            ++ exists (A2' ++ fst (items_from (afin p h2s) (flatl r2))). split.
               ** eapply an_app_ok; eauto.
               ** rewrite !dc_app, DC2. reflexivity.
-           ++ (* last part, exhausted *)
-              destruct r2 as [|x r3]; [|cbn in Retry; discriminate].
-              apply an_fail in AN2. destruct AN2 as (-> & -> & DCh2).
-              cbn [flatl flat_map items_from fst snd]. rewrite !app_nil_r.
-              exists []. split; [apply an_nil_closed; exact DCh2|].
-              cbn [drop_closed] in DC2. rewrite <- DC2. reflexivity.
+           ++ cbn in Retry. discriminate.
 Qed.
 
 (* ---------- leaves, windows, counts ---------- *)
